@@ -485,6 +485,10 @@ def _gen_unary(ctx):
             leaf = ("m", T, a)
             for k in (1, 2, 3):
                 yield {"kind": _kind(spin), "expr": ("**", leaf, k)}
+            if len(a) <= 1 or max(abs(v) for v in a.values()) <= 1:
+                for k in (4, 5, 6, 7, 9, 10, 11):         # larger exponents (odd ones included) on models with small values
+                    yield {"kind": _kind(spin), "expr": ("**", leaf, k)}
+                    yield {"kind": _kind(spin), "expr": ("**=", leaf, k)}
             yield {"kind": _kind(spin), "expr": ("neg", leaf)}
             yield {"kind": _kind(spin), "expr": ("/", leaf, 2)}
     rng = ctx.rng("c05.unary")
@@ -494,7 +498,7 @@ def _gen_unary(ctx):
             for _ in range(n):
                 labels = _pool(rng, (T,), rng.choice([2, 3, 4]))
                 leaf = _operand(rng, T, labels, spin, max_terms=4)
-                yield {"kind": _kind(spin), "expr": ("**", leaf, rng.choice([1, 2, 3] + ctx.pick([], [4])))}
+                yield {"kind": _kind(spin), "expr": ("**", leaf, rng.choice([1, 2, 3, 4, 5] + ctx.pick([], [6, 7])))}
                 yield {"kind": _kind(spin), "expr": ("neg", leaf)}
                 yield {"kind": _kind(spin), "expr": ("/", leaf, rng.choice(DIVS))}
 
